@@ -7,6 +7,8 @@ import QlibcModel.Conf.Aconf
 import QlibcModel.Conf.AconfTok
 import QlibcModel.Conf.AconfTotal
 import QlibcModel.Conf.IniTotal
+import QlibcModel.Conf.FileReadSpec
+import QlibcModel.Str.FmtLemmas
 namespace Qlibc.Props.C17Parsers
 open Qlibc Qlibc.Conf
 
@@ -58,5 +60,40 @@ theorem ini_include_consts : Ini.directive = Generated.Conf.includeDirective ∧
     pinned tree was found and repaired through the harness (ASan), not through this theorem. -/
 theorem iniParseFile_total (w : Ini.World) (fs : Bytes → Option Bytes) (sep : UInt8) (path : Bytes) :
     ∃ r, Ini.parseFile w fs sep path = .ok r := Ini.parseFile_total w fs sep path
+
+/-- fmt_total: the retry loop of DYNAMIC_VSPRINTF - the macro behind qaconf's error message
+    (`path:line Unregistered option '…'.` …) and, through `qstrdupf`, behind qconfig's `section.key`
+    names - terminates for EVERY formatted text `out`, of any length (4096 and 8192 bytes included):
+    within `|out| + 1` rounds a block of `sz > |out|` bytes is reached (1024 doubled), and it holds
+    exactly the text and its terminator. No write leaves a block (`wrN` is checked). That the macro
+    of the current header IS this loop is the obligation Shapes.Conf.fmt_macro_as_modelled. -/
+theorem fmt_total (out : Bytes) :
+    ∃ (sz : Nat) (allocs : List Nat), out.length < sz ∧
+      Str.dynVsprintf 2 out (out.length + 1) 1024 []
+        = .ok (out ++ 0 :: List.replicate (sz - (out.length + 1)) Str.fillByte, allocs) :=
+  Str.dynVsprintf_top 1024 2 (by omega) (by omega) out
+
+/-- the same through `qstrdupf` (C19 dupf_eq): exactly the text and its terminator are returned -/
+theorem fmt_dup_total (out : Bytes) (ho : Str.NulFree out) :
+    ∃ allocs, Str.qstrdupfG 1024 2 out = .ok (out ++ [0], allocs) :=
+  Str.qstrdupf_correct 1024 2 (by omega) (by omega) out ho
+
+/-- qfile_read_total: `qfile_read(fp, nbytes)` - reached from every `${!command}` of an INI value
+    through `qsyscmd` - for EVERY stream content and EVERY `nbytes` (NULL, 0 = no limit, n): no read
+    or write outside the current block (first block `memsize + 1` bytes, replaced by one of
+    `2 * memsize + 1` bytes when `c_count == memsize - 1`: lengths 1023, 1024, 2047, 2048, … are not
+    special), NULL for an empty stream, otherwise the bytes taken, their terminator right behind them,
+    and their count. The stream is read with `fgetc`: there is no short-read schedule to quantify over. -/
+theorem qfile_read_total (nbytes : Option Nat) (inp : Bytes) :
+    ∃ pad, FileRead.qfileRead nbytes inp
+      = .ok (if inp = [] then none
+             else some (FileRead.taken nbytes inp ++ 0 :: pad, (FileRead.taken nbytes inp).length)) :=
+  FileRead.qfileRead_spec nbytes inp
+
+/-- what `taken` is: everything without a limit, the first n bytes with one -/
+theorem qfile_read_taken (inp : Bytes) (n : Nat) :
+    FileRead.taken none inp = inp ∧ FileRead.taken (some 0) inp = inp ∧
+    FileRead.taken (some (n + 1)) inp = inp.take (n + 1) := by
+  simp [FileRead.taken, FileRead.want]
 
 end Qlibc.Props.C17Parsers
